@@ -18,6 +18,8 @@ Import ListNotations.
 Section Pipeline.
   Variables (item res cst : Type).
   Variable f : item -> res.                 (* the pool task *)
+  Variable ready : item -> bool.            (* the result is known at submission: the ticket is sent
+                                               already answered and no pool task is spawned *)
   Variable cstep : cst -> res -> cst.       (* the in-order consumer *)
   Variable stopped : cst -> bool.           (* consumer has exited with an error *)
   Variable can_submit : nat -> bool -> bool.  (* window guard: |channel| -> consumer holds a ticket? -> may submit *)
@@ -64,8 +66,12 @@ Section Pipeline.
       match a with
       | Submit => match todo s with
                   | [] => s
-                  | x :: xs => mk xs (S (next s)) (chan s ++ [(next s, x)]) (hold s)
-                                  (pending s ++ [next s]) (running s) (done s) (cons s) (cs s)
+                  | x :: xs =>
+                    if ready x
+                    then mk xs (S (next s)) (chan s ++ [(next s, x)]) (hold s)
+                            (pending s) (running s) (next s :: done s) (cons s) (cs s)
+                    else mk xs (S (next s)) (chan s ++ [(next s, x)]) (hold s)
+                            (pending s ++ [next s]) (running s) (done s) (cons s) (cs s)
                   end
       | Start => match pending s with
                  | [] => s
